@@ -11,7 +11,7 @@ def hook_commits():
         return []
 
 # ids whose check exists in the harness (keep in sync with harness/src/props/mod.rs)
-IMPLEMENTED = ["C01", "C02", "C03", "C04", "C05", "C06", "C07", "C08", "C09", "C10", "C11", "C12", "C16", "C17", "C18", "C19", "C20", "C21", "C22", "C23", "C24"]
+IMPLEMENTED = ["C01", "C02", "C03", "C04", "C05", "C06", "C07", "C08", "C09", "C10", "C11", "C12", "C13", "C14", "C15", "C16", "C17", "C18", "C19", "C20", "C21", "C22", "C23", "C24"]
 
 PBT = "property-based testing (proptest byte-driven generators, 16 seeded runners, shrinking to a replay file)"
 REFI = "Trusts the harness's reference unifier/interpreter (model/*.rs, small and independent of the implementation) and the finite universe used for instance comparison."
@@ -53,6 +53,15 @@ TABLE = {
  "C12": (PBT + ": metamorphic relation for-loop vs explicit per-element conjunction, plus reference interpreter (tree bodies)",
          "everyg with collections of 0-4 terms (Vec and LTerm list), bodies over the loop variable, query variables and a body-local fresh variable (tree and FD bodies). Exploration. The surface `for` form is covered by C14's compile pipeline.",
          REFI),
+ "C13": ("property-based testing through a compile pipeline: generated match/matche/matcha/matchu programs are emitted as Rust source, compiled against the current tree in one cargo build, run, and compared with the reference evaluation of the documented expansion and with the dynamic build of the same AST",
+         "700 (quick) / 12000 (thorough) generated pattern-matching programs per run exercise literal, [], `_`, proper/improper list and compound patterns, repeated names, `p1 | p2` alternatives, empty bodies, shadowing pattern variables; answers must equal the reference's as multisets. Exploration.",
+         REFI + " A generated program that fails to compile counts as a generator problem (tolerated up to 2%)."),
+ "C14": ("property-based testing through a compile pipeline over the whole clause grammar (fresh, ==, !=, conjunctions in operators, conde/cond, closure, for, relation calls, literals of every kind, nested proper/improper lists, `_`, `{expr}` and lterm! arguments, compound constructors), against the reference interpreter and the dynamic build; results read by field name, Display order checked",
+         "700 / 12000 generated surface programs per run, compiled against the current tree and run. Exploration.",
+         REFI + " A generated program that fails to compile counts as a generator problem (tolerated up to 2%)."),
+ "C15": ("property-based testing through a compile pipeline: each generated program with shadowing / sibling / recursive scopes is emitted twice (shadowing names, alpha-renamed unique names); metamorphic equality of both plus reference interpreter (resolves ids, not names) plus dynamic build",
+         "350 / 6000 generated programs per run (two compiled modules each). Exploration.",
+         REFI + " A generated program that fails to compile counts as a generator problem (tolerated up to 2%)."),
  "C16": (PBT + " against brute-force enumeration of the domain product (soundness verdict)",
          "Generated CLP(FD) programs with aliasing, signed domains, sparse domains, hidden variables, shuffled posting order, list/compound query terms; every answer must be a brute-force solution. Exploration.",
          "Trusts the brute-force model (model/fdbrute.rs)."),
@@ -116,7 +125,7 @@ manifest = {
     },
     "engines": [
         {"name": "pvh", "path": "/verif/harness", "serves_properties": sorted(CLAIMED.keys()),
-         "kind_free_text": "Rust crate (lib pvh + bin pvcheck): byte-driven generators decoded from proptest-generated byte strings, reference models, dynamic goal builder over proto-vulcan's public API, seeded 16-thread proptest driver with shrinking, replay files, evidence writer"},
+         "kind_free_text": "Rust crate (lib pvh + bin pvcheck): byte-driven generators decoded from proptest-generated byte strings, reference models, dynamic goal builder over proto-vulcan's public API, surface-syntax emitter + compile pipeline (generated crates under work/), seeded 16-thread proptest driver with shrinking, replay files, evidence writer"},
     ],
     "checks": checks,
     "not_applicable": na,
